@@ -151,7 +151,13 @@ func (t *Tree) Get(topic string) []interface{} {
 	defer t.mutex.Unlock()
 
 	// get values
-	return t.get(topic, t.root)
+	values := t.get(topic, t.root)
+	if len(values) == 0 {
+		return values
+	}
+
+	// return a copy as the node's own slice is modified in place by removals
+	return append([]interface{}(nil), values...)
 }
 
 func (t *Tree) get(topic string, node *node) []interface{} {
